@@ -187,6 +187,26 @@ theorem produce_frame_every_cut :
         r.1.isFail && r.2.closed
       | none => false) = true := by decide
 
+/-- the un-framed sasl token exchange on a complete answer — 4 bytes of length, the token, then anything: ok, and the
+stream is exactly at what follows the token (the C11 side of this exchange: the framed operations that follow the
+authentication start at a frame boundary) -/
+theorem raw_token_aligned (len tok rest : Bytes) (hl : len.length = 4) (hv : beInt len = tok.length) :
+    rawToken (len ++ (tok ++ rest)) = (.ok, rest) := by
+  unfold rawToken
+  rw [C11.readInt_app len _ 4 4 hl (by omega)]
+  simp only [hv]
+  have hneg : ¬ ((tok.length : Int) < 0) := by omega
+  simp only [hneg, ↓reduceIte, Int.toNat_natCast]
+  unfold readNewBytes
+  by_cases h0 : tok.length = 0
+  · have : tok = [] := List.eq_nil_of_length_eq_zero h0
+    subst this
+    simp
+  · have hpos : ¬ ((tok.length : Int) ≤ 0) := by omega
+    simp only [hpos, ↓reduceIte, Int.toNat_natCast, Nat.min_self, List.length_append]
+    have h1 : ¬ (tok.length + rest.length < tok.length) := by omega
+    simp only [h1, ↓reduceIte, Nat.lt_irrefl, List.drop_left]
+
 /-- the un-framed sasl token exchange: an answer announcing n bytes of which fewer arrive (or whose 4-byte length is
 itself cut) is an error, at every cut position -/
 theorem raw_token_cut_is_error (inp : Bytes) (h : inp.length < 4 ∨ (0 ≤ beInt (inp.take 4) ∧ (inp.length : Int) < 4 + beInt (inp.take 4))) :
